@@ -11,6 +11,9 @@
        every registered class and ALL constructor arguments;
    (b) the static/dynamic field partition of every operator class is consistent with how mv uses each
        field: no field consulted by Python-level control flow is traced by a filtering jit.
+   (c) the static part of an operator (the cache key of a jit taking the operator as argument): every
+       dataclass field of every operator class and of ConfigState is compared, hence equal keys have
+       equal static field values.
    NOT proved (tested by harness/c18.py, reported as numerical tests): that JAX tracing, XLA and
    equinox's generic module flattening preserve values.
    Statements only; proofs are `exact <lemma>` (Lemmas/PytreeRegL.v) or finite decisions on the
@@ -86,6 +89,35 @@ Proof. exact mask_fields_only_in_index_and_pack. Qed.
 Theorem classified_classes_exist : forall cls fs, In (cls, fs) model_uses ->
   In cls (map fst gen_fields) \/ In cls optional_classes.
 Proof. apply coverage_sound_l. vm_compute. reflexivity. Qed.
+
+(* ---------------------------------------------------------------------------------------------- *)
+(* (c) the static part of an operator is the cache key of a jit that takes the operator as argument *)
+
+(* every dataclass field of every operator class, and every field of the dataclass stored in a static
+   field (ConfigState in InverseOperator.config), is declared with compare=True (regenerated flags) *)
+Theorem static_fields_all_compared :
+  all_compared gen_field_compare = true /\ all_compared gen_static_records = true /\
+  config_record_present gen_fields gen_static_records = true.
+Proof. repeat split; vm_compute; reflexivity. Qed.
+
+(* hence, for ANY field values: two records of a regenerated class that compare equal (generated
+   dataclass __eq__ over a sound equality of values) agree on every field - operators that differ in a
+   field of their static configuration never share a cache entry *)
+Theorem equal_static_records_have_equal_fields : forall cls flags, In (cls, flags) gen_static_records ->
+  forall (V : Type) (veq : V -> V -> bool) a b, (forall x y, veq x y = true -> x = y) ->
+  rec_eq veq flags a b = true ->
+  forall f, In f (map fst flags) -> assoc f a = assoc f b /\ assoc f a <> None.
+Proof. apply static_key_sound_l. vm_compute. reflexivity. Qed.
+Print Assumptions equal_static_records_have_equal_fields.
+
+(* the hypothesis is satisfiable and the conclusion not vacuous: ConfigState is in the table with its
+   four fields; and the condition is necessary - an uncompared field is ignored whatever its values *)
+Example configstate_record_example :
+  exists flags, In ("ConfigState", flags) gen_static_records /\ In "solver_options" (map fst flags).
+Proof. eexists. split; [left; reflexivity|]. vm_compute. tauto. Qed.
+Example uncompared_field_conflates :
+  rec_eq Nat.eqb [("solver_options", false)] [("solver_options", 0%nat)] [("solver_options", 1%nat)] = true.
+Proof. exact (rec_eq_ignores_uncompared_l nat Nat.eqb "solver_options" 0%nat 1%nat). Qed.
 
 (* ---------------------------------------------------------------------------------------------- *)
 (* (a, continued) the round trip itself, for all constructor arguments *)
